@@ -45,8 +45,12 @@ func init() {
 				{"nope(1)", "", "", "", "0"},
 				{"vars {\n monetary $c\n}\nsend [USD 10] (\n source = max $c from @a\n destination = @d\n)", "c=mon:EUR", "a", "", "0"},
 			}
-			for _, r := range runs {
-				for _, ch := range []string{"raw", "stdin", "files"} {
+			for ri, r := range runs {
+				chans := []string{"raw", "stdin", "files"}
+				if ri < 4 || tier == "thorough" {
+					chans = append(chans, "path+stdin", "files+stdin-vars", "raw+files", "path+raw")
+				}
+				for _, ch := range chans {
 					cases = append(cases, Case{ID: "run " + ch + " " + strings.ReplaceAll(r.script, "\n", " ") + " flag=" + r.flag, Pkg: "internal/cmd", Fn: "ZZC20Run",
 						Args: []string{ch, r.script, r.spec, r.accounts, r.meta, r.flag}, Tag: "run-command/" + ch})
 				}
@@ -54,12 +58,12 @@ func init() {
 			return cases
 		},
 		Bounds: stdBounds(
-			map[string]interface{}{"check": "every 6th text of the C18 quick corpus + 15 valid / warning-only scripts", "run": "10 scripts x 3 input channels, JSON output; balances, numbers and monetary amounts symbolic (beyond 2^64 included)"},
-			map[string]interface{}{"check": "every 5th text of the C18 thorough corpus", "run": "10 scripts x 3 channels"}),
+			map[string]interface{}{"check": "every 6th text of the C18 quick corpus + 15 valid / warning-only scripts", "run": "15 scripts x 3 input channels (4 of them also through 4 mixed channels: script path + stdin, files + variables on stdin, raw + files, path + raw), JSON output; balances, numbers and monetary amounts symbolic (beyond 2^64 included)"},
+			map[string]interface{}{"check": "every 5th text of the C18 thorough corpus", "run": "15 scripts x 7 channels"}),
 		Assumptions: []string{
 			"SCOPED CLAIM: the command functions check() and run() are executed, not the process: cobra flag parsing, main()'s recover/sentry wrapper and the real exit status of the binary are outside",
 			"environment stubs in the VM: os.ReadFile on a virtual file system, os.Stdin/Stdout/Stderr as recorded streams, os.Exit as an observed event, json.Marshal/Unmarshal value-carrying; natively the harness uses real files, a real stdin and a child process",
-			"the three channels are given the same (script, variables, balances, metadata)",
+			"every channel (pure or mixed) is given the same (script, variables, balances, metadata), each document carrying its part",
 		},
 		Stubs:   []string{"os.{ReadFile Exit Stdin Stdout Stderr}", "fmt.{Print Printf Println}", "encoding/json.{Marshal MarshalIndent Unmarshal}", "io.ReadAll", "sort.Slice (real algorithm, comparator run in the VM)"},
 		Outside: []string{"process start, cobra, main()", "pretty output format", "JSON text encoding itself (encoding/json)"},
